@@ -448,11 +448,26 @@ impl<'cx> TyGenContext<'_, 'cx> {
         let mut needs_temp_arena = false;
 
         if let Some(param_self) = method.param_self.as_ref() {
-            visitor.visit_param(&param_self.ty.clone().into(), "this");
+            let self_borrow_kind = visitor.visit_param(&param_self.ty.clone().into(), "this");
 
             param_types_ffi.push(self.gen_self_type_name_ffi(&param_self.ty, false));
             param_types_ffi_cast.push(self.gen_self_type_name_ffi(&param_self.ty, true));
-            param_conversions.push(self.gen_dart_to_c_self(&param_self.ty, "temp.arena"));
+            if let ParamBorrowInfo::Struct(param_info) = self_borrow_kind {
+                // Like for struct parameters: slices in fields the output borrows from
+                // must be allocated in an arena that lives as long as the output
+                let struct_borrow_info = StructBorrowContext {
+                    use_env: &method.lifetime_env,
+                    param_info,
+                    is_method: true,
+                };
+                param_conversions.push(self.gen_dart_to_c_for_struct_type(
+                    "this".into(),
+                    Some(&struct_borrow_info),
+                    "temp.arena",
+                ));
+            } else {
+                param_conversions.push(self.gen_dart_to_c_self(&param_self.ty, "temp.arena"));
+            }
             param_names_ffi.push("self".into());
             if matches!(param_self.ty, hir::SelfType::Struct(..)) {
                 needs_temp_arena = true;
